@@ -179,7 +179,9 @@ class Engine(EngineBase):
                 src_jobs[k]["files"][name] = [f"SRC{k}:{name}", T0 + 50_000]
                 dst_jobs[k]["files"][name] = [f"DST{k}:{name}", T0 + 50_000]
                 opts["strategy"] = rng.choice(["always", "always", None, ["custom", [name]]])
-                opts["dry_run"] = False
+                if P != "C15" or rng.random() < 0.5:
+                    # (a dry run with deep=True must report exactly the conflicts the real deep run meets)
+                    opts["dry_run"] = False
                 if "/" in name:
                     opts["recursive"] = True
         if opts["exclude"] and rng.random() < 0.25:
